@@ -7,20 +7,39 @@ MODULES = ["TinsModel.Props.C19", "TinsModel.Props.Limits.C19"]   # + the consta
 AUDIT = ["Audit/C19.lean", "Audit/LimitsC19.lean"]
 LEVEL = "proof"
 HARNESS = "c19_acktracker"
-CASE_START = ("init", "finit", "new")
+CASE_START = ("init", "finit", "new", "icl")
 MANIFEST = dict(
     text="Lean 4 theorems (invariant over all conforming ACK/SACK histories, any initial sequence number, wrap-around "
          "included) over a code-shaped executable model of AckedRange / AckTracker::process_packet / process_sack / "
-         "cleanup_sacked_intervals / is_segment_acked, tied to the code by differential correspondence: the real "
-         "AckTracker is driven with real TCP packets carrying SACK options (API-built, wire-parsed, and through "
-         "TCPIP::Flow::process_packet with ACK tracking enabled) under ASan/UBSan, "
-         "its ack_number(), icl intervals and is_segment_acked on a grid around every interval edge, the ACK and the wrap "
-         "point are compared with the model, and the executable spec (set of acknowledged absolute byte positions) "
-         "judges the implementation's own output.",
-    note="Trusted: Lean kernel + standard axioms; boost::icl::interval_set<uint32_t> is a parameter (sorted list of closed "
-         "intervals with point-set semantics) validated only by correspondence; hand-written model tied by correspondence "
-         "(harness/c19_acktracker.cpp); generator coverage bounds what the tie sees.",
-    technique="Lean 4 proof (invariant/refinement over ACK histories) + model/impl correspondence + spec oracle",
+         "cleanup_sacked_intervals / is_segment_acked, composed with the byte-level model of TCP::TCP(buffer,size), "
+         "search_option(SACK) and to<sack_type>() of the Transport wire family into one statement from wire bytes to the "
+         "acknowledged set (ack_refines_wire: every conforming history, each packet put on the wire by an RFC 793 / RFC 2018 "
+         "reference encoder with any well-formed options around the SACK option, drives process_packet(TCP(bytes)) to the "
+         "state of the set-of-acknowledged-bytes model); the decoder facts (big-endian words, malformed_option exactly for "
+         "option lengths other than 2+4k and only after the cumulative ACK has been processed, a trailing odd edge ignored); "
+         "a safety part for ALL histories and ALL byte strings (no fault, only malformed_packet / malformed_option leave, "
+         "32-bit ACK, canonical interval list with 32-bit edges, is_segment_acked total with a point-wise meaning in every "
+         "state; the 'every stored point lies ahead of the ACK' invariant refuted in general by witnesses and proved for "
+         "every packet that neither jumps the ACK by exactly 2^31 nor carries a block straddling the ACK). Tied to the code "
+         "by differential correspondence: the real AckTracker is driven with real TCP packets carrying SACK options "
+         "(API-built, serialised and re-parsed, built by a C++ reference encoder whose bytes are compared with the Lean "
+         "encoder's and parsed with TCP(buffer,size), arbitrary mutated byte strings, and through TCPIP::Flow::process_packet "
+         "with ACK tracking enabled) under ASan/UBSan; its ack_number(), icl intervals and is_segment_acked on a grid around "
+         "every interval edge, the ACK and the wrap point are compared with the model, and the executable spec (set of "
+         "acknowledged absolute byte positions) judges the implementation's own output.",
+    note="Trusted: Lean kernel + standard axioms; boost::icl::interval_set<uint32_t> is a parameter whose assumed behaviour is "
+         "the explicit contract Ack/Icl.lean IclContract on exactly the operations the tracker uses (insert / erase / "
+         "contains of non-empty closed intervals, const iteration through icl::first / icl::last): canonical iteration "
+         "(ascending, non-empty, non-touching intervals) and point-set union / difference / subset. The contract is proved "
+         "complete (any implementation satisfying it is observationally the Lean list model: "
+         "interval_set_parameter_is_determined) and satisfiable (by the list model, whose canonical-form lemmas are proved); "
+         "that the real icl satisfies it is validated by correspondence only - a dedicated op stream on a real "
+         "interval_set<uint32_t> (insert closed / right-open, erase, operator-=, contains, iterative_size, cardinality; "
+         "intervals overlapping, nested, touching at either end, at 0 and at 2^32-1) compared with the list model and judged "
+         "point-wise by the oracle. Hand-written model tied by correspondence (harness/c19_acktracker.cpp); generator "
+         "coverage bounds what the tie sees.",
+    technique="Lean 4 proof (invariant/refinement over ACK histories, composed with the wire parser model) + model/impl "
+              "correspondence + spec oracle",
     design="DESIGN.md §6 C19")
 MANIFEST["note"] += (" Constants and limits of the C++ source that the model restates (translator/gen_limits.py -> Gen/Limits.lean: "
                      "compiled probe + preprocessed function bodies at named anchors) are tied to the model's numerals by the "
@@ -130,11 +149,118 @@ def gen_conforming(rng, max_segs=10, scale=None, sack_on=True):
             blocks[0] = (l, r)
         if rng.random() < loss:
             continue
-        kind = "pktw" if rng.random() < 0.4 else "pkt"
+        kr = rng.random()
+        if kr < 0.3:
+            # on the wire through the reference encoder: options around the SACK option, SACK omitted / empty when there
+            # is no block, now and then an END octet in front of it, an undecodable SACK option or a trailing odd edge
+            # (the tracker then has to take only the cumulative ACK / ignore the odd edge)
+            flat = [x for b in blocks for x in b]
+            sr = rng.random()
+            sack = "" if (not flat and sr < 0.5) else "T" if (flat and sr < 0.04) else "S"
+            if sack == "S" and len(flat) < 8 and sr > 0.96:
+                flat.append(rng.choice(flat or [rcv.next]) + rng.randint(-3, 3))
+            lay = pick_layout(rng, len(flat), sack)
+            if lay != "." and rng.random() < 0.03:
+                lay = "E" + lay
+            ops.append(f"segw {rcv.next} {lay} {rng.choice([0, 0, 1, 3, 5])}" + "".join(f" {x}" for x in flat))
+            for s, n in queries_near(rng, rcv, segs, rng.choice([0, 0, 1, 3])):
+                ops.append(f"q {s} {n}")
+            continue
+        kind = "pktw" if kr < 0.58 else "pkt"
         edges = " ".join(f"{a} {b}" for a, b in blocks)
         ops.append(f"{kind} {rcv.next}" + (" " + edges if edges else ""))
         for s, n in queries_near(rng, rcv, segs, rng.choice([0, 0, 1, 3])):
             ops.append(f"q {s} {n}")
+    return ops
+
+
+# ----------------------------------------------------------------------------- segments on the wire
+
+OPT_SIZE = {".": 0, "n": 1, "E": 1, "m": 4, "w": 3, "k": 2, "t": 10, "x": 5}
+OPT_BYTES = {".": b"", "n": b"\x01", "E": b"\x00", "m": bytes([2, 4, 5, 0xb4]), "w": bytes([3, 3, 7]), "k": bytes([4, 2]),
+             "t": bytes([8, 10, 0, 0, 0, 1, 0, 0, 0, 2]), "x": bytes([30, 5, 0xaa, 0xbb, 0xcc])}
+PRE = ["", "", "n", "nn", "nn", "nnn", "m", "w", "k", "x", "mw", "nnt", "tnn", "kn"]
+POST = ["", "", "", "n", "t", "E", "nE", "x", "nn"]
+
+
+def layout_size(layout, nedges):
+    n = 0
+    for c in layout:
+        n += (2 + 4 * nedges - (1 if c == "T" else 0)) if c in "ST" else OPT_SIZE[c]
+    return (n + 3) // 4 * 4
+
+
+def pick_layout(rng, nedges, sack="S"):
+    """options around the SACK option (kind `sack`, or none when it is ""), fitting the 40-byte option area"""
+    for _ in range(20):
+        lay = rng.choice(PRE) + sack + rng.choice(POST)
+        if layout_size(lay, nedges) <= 40:
+            return lay or "."
+    return sack or "."
+
+
+def py_segment(ack, layout, plen, edges):
+    """a third encoder (only used to derive *mutated* byte strings for the `wire` op)"""
+    opt = b""
+    for c in layout:
+        if c in "ST":
+            d = b"".join((e % M32).to_bytes(4, "big") for e in edges)
+            if c == "T":
+                d = d[:-1]
+            opt += bytes([5, (len(d) + 2) % 256]) + d
+        else:
+            opt += OPT_BYTES[c]
+    opt += b"\x00" * (-len(opt) % 4)
+    hdr = (1234).to_bytes(2, "big") + (80).to_bytes(2, "big") + (1001).to_bytes(4, "big") + (ack % M32).to_bytes(4, "big")
+    hdr += bytes([(((20 + len(opt)) // 4) << 4) & 0xff, 0x10]) + (32678).to_bytes(2, "big") + b"\x00\x00\x00\x00"
+    return hdr + opt + b"\xab" * plen
+
+
+def mutate_segment(rng, b):
+    b = bytearray(b)
+    r = rng.random()
+    if r < 0.25 and len(b) > 1:
+        b = b[:rng.randrange(len(b))]                       # truncation at any length
+    elif r < 0.45:
+        b[12] = (rng.choice([0, 4, 5, 6, 7, 10, 15, (b[12] >> 4) + 1, max((b[12] >> 4) - 1, 0)]) << 4) & 0xff
+    elif r < 0.8 and len(b) > 20:
+        i = rng.randrange(20, len(b))                       # an option kind / length / data octet
+        b[i] = rng.choice([0, 1, 2, 5, 5, 6, 10, 18, 0xff, (b[i] + 1) & 0xff, (b[i] - 1) & 0xff])
+    else:
+        i = rng.randrange(len(b)); b[i] ^= 1 << rng.randrange(8)
+    return bytes(b)
+
+
+def gen_icl(rng):
+    """the container parameter on its own: insert / erase / contains on a real interval_set<uint32_t>, values chosen so
+    that intervals overlap, nest, touch at either end, and sit at 0 and at 2^32 - 1"""
+    base = rng.choice([0, 0, M32 - 16, M32 - 16, HALF - 8, rng.randrange(M32 - 64)])
+    pool = [0, 1, 2, 3, M32 - 1, M32 - 2, M32 - 3] + [min(base + k, M32 - 1) for k in range(16)]
+
+    def ival(maxlen=6):
+        a = rng.choice(pool)
+        r = rng.random()
+        b = a if r < 0.25 else min(M32 - 1, a + rng.randint(0, maxlen)) if r < 0.9 else rng.choice(pool)
+        return (a, b) if a <= b else (b, a)
+
+    ops = ["icl"]
+    for _ in range(rng.randint(3, 14)):
+        r = rng.random()
+        if r < 0.4:
+            ops.append("ins %d %d" % ival())
+        elif r < 0.47:
+            a, b = ival()
+            ops.append("insro %d %d" % rng.choice([(a, b), (a, b + 1 if b < M32 - 1 else b), (b, a)]))
+        elif r < 0.52:
+            ops.append("ins %d %d" % rng.choice([(0, M32 - 1), (0, rng.choice(pool)), (rng.choice(pool), M32 - 1)]))
+        elif r < 0.7:
+            ops.append("%s %d %d" % ((rng.choice(["del", "del", "sub"]),) + ival(4)))
+        elif r < 0.75:
+            ops.append("del %d %d" % rng.choice([(0, M32 - 1), (0, 0), (M32 - 1, M32 - 1), (1, M32 - 2)]))
+        elif r < 0.93:
+            ops.append("has %d %d" % ival(8))
+        else:
+            ops.append("hasp %d" % rng.choice(pool))
     return ops
 
 
@@ -203,7 +329,7 @@ def gen_adversarial(rng):
 
     for _ in range(rng.randint(1, 10)):
         r = rng.random()
-        if r < 0.55:
+        if r < 0.45:
             kind = rng.choice(["pkt", "pkt", "pktw"])
             nb = rng.choice([0, 1, 1, 2, 3, 4])
             edges = []
@@ -215,6 +341,20 @@ def gen_adversarial(rng):
                 edges += [near() for _ in range(rng.randint(9, 30))]
             tail = " ".join(map(str, edges)) if edges else rng.choice(["", "-"] if kind == "pkt" else [""])
             ops.append(f"{kind} {near()} {tail}".rstrip())
+        elif r < 0.6:
+            nb = rng.choice([0, 1, 1, 2, 3, 4, 5])
+            edges = []
+            for _ in range(nb):
+                l = near(); edges += [l, (l + rng.choice([0, 1, 2, 3, 10, 25, M32 - 1, HALF, HALF - 1, HALF + 1])) % M32]
+            if rng.random() < 0.15:
+                edges.append(near())
+            lay = rng.choice(PRE) + rng.choice(["S", "S", "S", "T", "", "SS", "TS", "ES"]) + rng.choice(POST)
+            a = near()
+            if ops[0].startswith("finit") or rng.random() < 0.5:
+                ops.append(f"segw {a} {lay or '.'} {rng.choice([0, 1, 4])}" + "".join(f" {x}" for x in edges))
+            else:
+                lay2 = "".join(c for c in lay if c in OPT_SIZE or (c in "ST" and (edges or c == "S")))
+                ops.append("wire " + (mutate_segment(rng, py_segment(a, lay2, rng.choice([0, 2]), edges)).hex() or "-"))
         elif r < 0.65:
             n = rng.choice([0, 1, 3, 4, 5, 7, 8, 9, 12, 16, 17])
             data = bytearray()
@@ -243,6 +383,26 @@ CORPUS = [
     # touching blocks reported separately merge into one interval
     [f"init {M32 - 5} 1", f"pkt {M32 - 5} {M32 - 2} {M32}", f"pkt {M32 - 5} {M32} {M32 + 3}",
      f"pkt {M32 - 5} {M32 + 4} {M32 + 6}", f"pkt {M32 - 5} {M32 + 3} {M32 + 4}"],
+    # the witnesses of Props/C19 for non-conforming input (model vs code; the oracle only judges the any-history clause):
+    # a block straddling the ACK leaves a stored interval behind it; an ACK jumping by exactly 2^31 erases nothing
+    ["init 10 1", "pkt 10 20 31", "pkt 10 5 100", "q 20 5", "q 20 100"],
+    ["init 10 1", "pkt 10 20 31", f"pkt {10 + HALF}", "q 20 5"],
+    # a straddling block across the wrap point moves the ACK number backwards; its unwrapped analogue
+    ["init 5 1", "q 4294967295 1", "pkt 5 4294967280 11", "q 4294967295 1"],
+    ["init 21 1", "pkt 21 16 27"],
+    # on the wire: options around the SACK option, odd edge count (last edge ignored), undecodable option (ACK processed,
+    # malformed_option), END in front of the SACK option, two SACK options (the first counts), no option at all
+    [f"init {M32 + 10} 1", f"segw {M32 + 10} nnS 3 {M32 + 20} {M32 + 30}", f"segw {M32 + 12} nnSt 0 {M32 + 20} {M32 + 30} {M32 + 40} {M32 + 50}",
+     f"segw {M32 + 12} mS 1 {M32 + 20} {M32 + 30} {M32 + 60}", f"segw {M32 + 14} nnT 0 {M32 + 40} {M32 + 55}",
+     f"segw {M32 + 14} ES 0 {M32 + 70} {M32 + 80}", f"segw {M32 + 14} SS 0 {M32 + 70} {M32 + 80}", f"segw {M32 + 15} . 0",
+     f"segw {M32 + 15} S 0", f"segw {M32 + 15} nnntS 0 {M32 + 20} {M32 + 30} {M32 + 40} {M32 + 50} {M32 + 60} {M32 + 70} {M32 + 80} {M32 + 90}"],
+    [f"finit {M32 - 3}", f"segw {M32 - 3} nnT 2 {M32 + 4} {M32 + 9}", f"segw {M32 - 2} nnS 2 {M32 + 4} {M32 + 9}"],
+    ["init 10 1", "wire -", "wire 00", "wire " + py_segment(12, "nnS", 0, [20, 30]).hex(),
+     "wire " + py_segment(12, "nnS", 0, [20, 30])[:27].hex(), "wire " + py_segment(13, "S", 0, [40, 50, 60])[:-1].hex()],
+    # the container on its own: touching at both ends, at 0 and at 2^32-1, the full set, erasing the ends
+    ["icl", "ins 5 9", "ins 10 12", "del 7 7", "ins 4294967295 4294967295", "ins 0 0", "has 0 0", "ins 1 4", "has 0 6",
+     "insro 13 15", "ins 1 4294967294", "has 0 4294967295", "del 0 0", "del 4294967295 4294967295", "hasp 0", "sub 3 4294967290",
+     "has 1 2", "has 2 3"],
 ]
 
 
@@ -251,6 +411,12 @@ def classify(op, impl):
     tag = w[0]
     if tag in ("pkt", "pktw"):
         tag += ":blocks=%d" % ((len(w) - 2) // 2 if len(w) > 2 and w[2] != "-" else 0)
+    if tag == "segw" and len(w) >= 4:
+        vis = w[2].split("E")[0]
+        k = next((c for c in vis if c in "ST"), "none")
+        tag += ":sack=%s:pre=%d:edges=%d" % (k, len(vis.split(k)[0]) if k != "none" else len(vis.strip(".")), len(w) - 4)
+    if impl == "bad-op":
+        tag += ":bad-op"
     if impl.startswith("throw"):
         tag += ":" + impl.split(" ")[1]
     if "ivs=" in impl:
@@ -272,6 +438,8 @@ def sig_of(kind, detail, case):
 
 
 def nontrivial(op, impl):
+    if " card=" in impl:
+        return (op.split(" ")[0], impl)
     # distinct (op kind, resulting state) pairs where something is SACKed or a query was answered
     if "ivs=" in impl and (impl.split("ivs=")[1][:1] not in ("", " ") or "acked=" in impl):
         return (op.split(" ")[0], impl.split(" grid=")[0])
@@ -322,7 +490,9 @@ def run(chk):
             ops = []
             for i in range(6000 if quick else 12000):
                 r = i % 10
-                if r < 6:
+                if i % 12 == 11:
+                    ops += gen_icl(rng)
+                elif r < 6:
                     ops += gen_conforming(rng, sack_on=(i % 37 != 0))
                 elif r < 7:
                     ops += gen_window_edge(rng)
@@ -345,8 +515,12 @@ def run(chk):
             chk.violation("proof obligation no longer checks: " + p[:1500], ["theorem-or-audit-failure", p[:4000]], nofail=True)
     chk.cov["rule"] = ("cases = (initial ACK incl. wrap-point neighbourhood, history of ACK packets with <= 4 SACK blocks "
                        "emitted by a simulated RFC 2018 receiver for a random / exhaustive arrival order, ACK loss, "
-                       "queries around every interval edge / the ACK / the wrap point) + non-conforming traffic for the "
-                       "model/code tie; distinct_nontrivial counts distinct (op kind, tracker state) pairs with SACKed data "
+                       "queries around every interval edge / the ACK / the wrap point; ~30% of the packets go over the wire "
+                       "through the reference encoder with random options around the SACK option, now and then an END octet "
+                       "in front of it, an undecodable SACK option or a trailing odd edge) + non-conforming traffic (random "
+                       "edges, ref-encoded segments with several / hidden / truncated SACK options, mutated byte strings: "
+                       "truncation at any length, data offset, option kind / length octets, bit flips) for the model/code "
+                       "tie and the any-history clause + the icl op stream; distinct_nontrivial counts distinct (op kind, tracker state) pairs with SACKed data "
                        "or an answered query")
     chk.assumptions += [
         "conforming history: cumulative ACK non-decreasing, advancing < 2^31 per observed packet; SACK blocks non-empty, "
@@ -354,14 +528,33 @@ def run(chk):
         "queries (seq,len) are judged when the whole segment lies in the window (ACK - 2^31, ACK + 2^31) and len <= 2^31; "
         "outside it serial-number arithmetic has no meaning (Props.C19.segmentAckedAnyLength_fails: is_segment_acked(A, 2^31+1) "
         "answers true with nothing acknowledged) - such queries are compared model vs code only",
-        "boost::icl::interval_set<uint32_t> insert / erase / contains have point-set semantics and keep maximal intervals",
-        "SACK blocks that start at or below the ACK (non-conforming; the branch setting ack_number_ to the interval end) "
-        "are outside the property: compared model vs code only",
+        "boost::icl::interval_set<uint32_t> satisfies Ack/Icl.lean IclContract on the operations the tracker uses: "
+        "insert(closed) = point-set union, erase(closed) = point-set difference, contains(set, closed) = subset, iteration "
+        "= the maximal intervals in ascending order (touching intervals of the discrete domain are joined). Proved: the "
+        "contract determines every observation (interval_set_parameter_is_determined). Validated, not proved: that icl "
+        "meets it (icl op stream + point-wise oracle). Observed beside the contract: icl::cardinality is computed in the "
+        "domain type, the full set [0, 2^32-1] reports 0 (the tracker never asks)",
+        "non-conforming traffic is outside the refinement theorems but inside the safety theorems (wire_total_any_bytes, "
+        "sane_preserved_by_any_packet, is_segment_acked_any_state): SACK blocks that straddle the ACK (the branch assigning "
+        "ack_number_ = interval end, which erases nothing, may leave stored intervals behind the ACK and - across the wrap "
+        "point - moves the ACK number backwards: Props/C19 witnesses 1 and 3) and an ACK jumping by exactly 2^31 (nothing "
+        "erased: witness 2) are compared model vs code and judged by the any-history clause only",
+        "an odd number of SACK edges is not an error in libtins (only size % 4 is tested; process_sack never reads the "
+        "last edge: odd_edge_count_drops_last); a SACK option of length other than 2+4k makes process_packet throw "
+        "malformed_option after the cumulative ACK has been processed (wire_malformed_sack); Flow::process_packet catches it",
     ]
-    chk.trusted += ["correspondence harness harness/c19_acktracker.cpp + generators in checks/C19.py",
+    chk.trusted += ["correspondence harness harness/c19_acktracker.cpp (incl. its C++ reference encoder, compared byte for byte "
+                    "with Ack/Wire.lean refSegment on every segw line) + generators in checks/C19.py",
                     "g++ 12 / ASan+UBSan build of the repo's working tree", "boost::icl (system headers)"]
-    chk.extra["modelled_not_proved"] = ["TCP option parsing from wire bytes (pktw path) is exercised, not modelled: the "
-                                        "model starts at the decoded edge vector (decodeEdges models the uint32 converter)"]
+    chk.extra["modelled_not_proved"] = [
+        "the link / network layers in front of the TCP header on the pktw path (EthernetII / IP parsing and "
+        "find_pdu<TCP>) are exercised, not composed into ack_refines_wire: the theorem starts at TCP::TCP(buffer,size) "
+        "(their byte-level models and safety theorems are property C01's)",
+        "Flow::process_packet around the tracker (finit mode: update_state, the catch of malformed_option) is exercised "
+        "here and modelled in property C07, not in the C19 theorems",
+        "the wire theorems quantify over segments produced by the reference encoder (any header fields, any canonical "
+        "options around at most one SACK option, <= 40 option bytes); arbitrary byte strings are covered by the safety "
+        "theorem wire_total_any_bytes and by correspondence (wire op), not by a refinement statement"]
     corr.finalize_cov(chk)
 
 
